@@ -53,6 +53,13 @@ CLAIMED = {
  "C16": dict(cat="model_checking", ref="6 C16",
    tech="TLC: proleptic Gregorian calendar of CelTime checked day by day (round trip, successor, weekday, year-day, anchors); trace validation of parse, accessors, rendering, comparison and arithmetic on harness-written RFC 3339 timestamps",
    text="The calendar is specified from first principles and every day number of a multi-century range is a TLC state (civil<->days round trip, next-day, weekday, year-day, known anchors). Timestamps are written as RFC 3339 text by the harness (boundary dates x times x offsets -12:00..+14:00, random), parsed by cel-rust and the instant compared with the specification's own parse; each of the ten accessors must return the local calendar field with the documented origin; string(t) must denote the same instant/offset; ordering is by instant; t+d-d==t and (t+d)-t==d within years 1..9999."),
+ "C17": dict(cat="model_checking", ref="6 C17",
+   tech="TLC: CelSerde shape theorem and JSON commuting theorem over all serde terms / documents of depth <=2 (CelDataMC); trace validation of to_value on a dynamic any-serde-type generator and of the serde_json commuting square",
+   text="The serde data model and its conversion are specified term by term; TLC checks over every term of depth <=2 that the converted value has the term's shape, that unsupported key kinds are errors, and that Export(Import(doc)) = doc. cel-rust's to_value / Context::add_variable are driven by a Term whose Serialize impl calls exactly the named Serializer methods (all widths at extremes, every key kind, protocol misuse, the private marker names with foreign content): the outcome must equal the specification's and never be a panic; on JSON-representable terms json(to_value(t)) must equal serde_json::to_value(t)."),
+ "C18": dict(cat="model_checking", ref="6 C18",
+   tech="TLC: CelJson Export totality and Import-after-Export theorems over all values of depth <=2 (CelDataMC); trace validation of Value::json() and of to_value(json(v)) on random values of every kind",
+   text="Export is specified (arrays, objects keyed by key text, standard padded base64 written out in the spec, RFC 3339 text denoting the instant, nanosecond counts, null for non-finite doubles, errors for functions and durations beyond 64-bit ns) and TLC checks totality and the import/export round trip over all values of depth <=2 including colliding key texts. Every random value (depth<=5) exported by cel-rust must produce exactly that document or that error, never a panic, and importing it back must give an equal value on the JSON-native fragment.",
+   note="Built with the cargo feature `json` (outside the 67-test baseline). " + NOTE_COMMON),
 }
 
 def main():
